@@ -293,7 +293,8 @@ def param_domain(fn, p, ctx):
         # PROPOSALS only (Coq judges; everything returned is filtered by owned_ok, the admissible form). With a recorded result the
         # anchors are the differences old-new under the field masks, closed under the form's own generators (+-IN_BARRIER,
         # +-the barrier reservation, + an enqueue bit): a drainer may hold any k <= width units (k = width-2 on an over-committed
-        # queue was missed by a fixed grid of k), so k comes from the data. Without a result (give-up) a small grid stands in.
+        # queue was missed by a fixed grid of k), so k comes from the data; the grid of the ends of the range is kept as well
+        # (k = width, a successful upgrade, has equal width fields before and after: no anchor leads to it).
         old, new = ctx["old"], ctx.get("new")
         gens_r = sorted({0} | {(K["PB"] + (w - 1) * K["WI"]) & M64 for w in widths})
         enq = (0, K["ENQ"], K["ENQ_MGR"])
@@ -310,31 +311,27 @@ def param_domain(fn, p, ctx):
                         for sgn in ((0,) if r == 0 else (-1, 1)):
                             for e in enq:
                                 cand.add((a0 + i * K["IB"] + sgn * r + e) & M64)
-        else:
-            for w in widths:
-                for k in (0, 1, w):
-                    for i in (0, 1):
-                        for r in (0, (K["PB"] + (w - 1) * K["WI"]) & M64):
-                            cand.add((i * K["IB"] + k * K["WI"] - r) & M64)
+        for w in widths:                     # and always the grid: the ends of the range are the common cases
+            for k in {0, 1, 2, max(w - 2, 0), max(w - 1, 0), w}:
+                for i in (0, 1):
+                    for r in (0, (K["PB"] + (w - 1) * K["WI"]) & M64):
+                        for e in enq:
+                            cand.add((i * K["IB"] + k * K["WI"] - r + e) & M64)
         if name == "da_width":
             return sorted({(c // K["WI"]) for c in cand if c % K["WI"] == 0 and 0 < c // K["WI"] <= 4096} | {4096})
         return sorted(c for c in cand if owned_ok(c, widths, K))
     return None
 
 
-def vectors(fn, ctx, limit=4000):
-    doms = []
+def axes(fn, ctx):
+    """one list of admissible values per parameter, in the order dqstate_apply takes them; Coq forms the product"""
+    out = []
     for p in fn["params"]:
         d = param_domain(fn, p, ctx)
         if d is None:
             return None, p["name"]
-        doms.append(d)
-    out = [[]]
-    for d in doms:
-        out = [v + [x] for v in out for x in d]
-        if len(out) > limit:
-            return None, "more than %d parameter vectors" % limit
-    return out, None
+        out.append(tuple(d))
+    return tuple(out), None
 
 
 # ----------------------------------------------------------------------------------------------------------------------
@@ -344,8 +341,8 @@ def zl(xs):
     return "[" + "; ".join(str(x) for x in xs) + "]"
 
 
-def evaluate(name, cases, chunk=1500, timeout=900):
-    """cases: list of (coq call text without candidates, candidate vectors as tuple of tuples); returns verdicts"""
+def evaluate(name, cases, chunk=4000, timeout=900):
+    """cases: list of (coq call text without parameters, parameter axes as tuple of tuples); returns verdicts"""
     out = []
     for c0 in range(0, len(cases), chunk):
         part = cases[c0:c0 + chunk]
@@ -412,7 +409,7 @@ def run(ctx, pid=None, scenarios=None):
         dep = (ctxp["old"], ctxp.get("new")) if any(p["name"] in DATA_PARAMS for p in s["params"]) else None
         k = (s["fn_id"], ctxp["tid"], tuple(ctxp["widths"]), id(ctxp["owners"]), dep)
         if k not in vcache:
-            vcache[k] = vectors(s, ctxp)
+            vcache[k] = axes(s, ctxp)
         return vcache[k]
 
     def add_case(kindname, s, file, line, kind, old, new, recd, ctxp):
@@ -420,7 +417,7 @@ def run(ctx, pid=None, scenarios=None):
         if vecs is None:
             nodomain["%s: %s" % (s["coq"], why)] = nodomain.get("%s: %s" % (s["coq"], why), 0) + 1
             return
-        cand = tuple(tuple(v) for v in vecs)
+        cand = vecs
         if kindname == "commit":
             call = "check_commit %d %d %d %d %d" % (file_id[file], line, kind, old, new)
         else:
